@@ -12,11 +12,12 @@ CONSTANTS Keys,        \* key universe, e.g. 0..10
 VARIABLES m
 vars == <<m>>
 
-Ops == [name : {"insert", "index", "index_set", "remove", "get"}, k : Keys]
+Ops == [name : {"insert", "index", "index_set", "remove", "get", "init_list"}, k : Keys]
 
 Init == m = [k \in Keys |-> Absent]
 Do(op) == /\ Legal(op, m)
           /\ op.name # "get"          \* pure observers do not change the graph; they are logged after every call
+          /\ op.name = "init_list" => op.k \in 1..3
           /\ m' = Eff(op, m)
           /\ Cardinality({k \in Keys : m'[k] = Default}) <= MaxDefault
 Next == \E op \in Ops : Do(op)
